@@ -92,3 +92,11 @@ CLAIMS["C18"] = {
     "note": "Needs the verif-tagged NewAlignedTicker re-export (internal/util). Real-time jitter is out of scope: the property is decided on a mock clock.",
     "technique": "property-based testing (rapid) on a mock clock with an independent modular-arithmetic oracle",
 }
+
+CLAIMS["C14"] = {
+    "text": "Metric maps built directly (every representable aggregate: int64-range counters, gauge/timer values incl. -0, +-Inf, NaN, denormals, arbitrary sampled counts, empty timers/sets, empty tag lists and sources, ',' ':' newlines in valid-UTF-8 strings) "
+            "and events with every field are given to a real HttpForwarderHandlerV2 (compression off/zlib/lz4 x level 0..9, 1..3 consolidator slots, manual flush coordinator) whose transport calls the real ingestion router in-process; what the ingesting side dispatches must equal what was given "
+            "(series keys, tags, sources, values bit for bit, sampled counts, members, event fields; timestamps excepted). Arbitrary / damaged bodies x encodings are compared with a reference decode: undecodable => 4xx/5xx and nothing dispatched, decodable => 202 and identical content. Native fuzzing of the body in the thorough tier.",
+    "note": "Needs the verif-tagged flush coordinator re-export to flush deterministically. Non-UTF-8 strings are outside this property's domain (see C15).",
+    "technique": "property-based testing (rapid): round trip through the real encoder and decoder + differential against a reference decode; native go fuzzing",
+}
